@@ -24,6 +24,7 @@ def run(ctx):
     sd_backend(ctx, ctx.n(80, 1500))
     nested_runs(ctx, ctx.n(20, 300))
     past_till(ctx, ctx.n(30, 500))
+    reused_conditions(ctx, ctx.n(20, 300))
     # timed waits through the SimPy layer (Timeout, processes registered before the run, initial_time): C18's directed
     # family, its oracle is the clock arithmetic of this property
     from harness.props import C18
@@ -97,6 +98,46 @@ def nested_runs(ctx, n):
         for x in obs:
             if x[0] == 'inner' and (x[1] != start_in or x[3] != start_in + x[2]):
                 ctx.fail(case, 'inner wait %r did not end at start + d' % (x,), family='nested-runs')
+
+
+def reused_conditions(ctx, n):
+    """time conditions are plain objects: one created once (at module level, say) and used by several simulations one after
+    the other, or by an outer and a nested one, names the same date in each of them: every wait resumes exactly there"""
+    import usim
+    from usim import time
+    rng = ctx.rng
+    for _ in range(n):
+        d = rng.choice([2, 3, 5])
+        kind = rng.choice(['after', 'moment', 'until-after', 'until-moment'])
+        cond = (time >= d) if 'after' in kind else (time == d)
+        nested = rng.random() < 0.4
+        runs = rng.choice([2, 3])
+        case = {'reused_condition': kind, 'date': d, 'runs': runs, 'nested': nested}
+        log = []
+
+        async def user(tag):
+            if kind.startswith('until'):
+                async with usim.until(cond):
+                    await (time + (d + 10))
+            else:
+                await cond
+            log.append((tag, time.now))
+
+        async def outer():
+            usim.run(user('inner'))
+            await user('outer')
+        try:
+            for k in range(runs):
+                usim.run(outer() if nested else user(k))
+        except BaseException as e:   # noqa
+            ctx.fail(case, 'raised %r' % (e,), family='reused-conditions')
+            continue
+        ctx.count(case, nontrivial=True)
+        ctx.bump('family:reused-conditions')
+        want = [('inner', d), ('outer', d)] * runs if nested else [(k, d) for k in range(runs)]
+        if log != want:
+            ctx.fail(case, 'a %s condition for the date %r used by %d simulations in a row%s: resumed at %r, expected %r'
+                     % (kind, d, runs, ' (each with a nested one)' if nested else '', log, want), family='reused-conditions')
 
 
 def past_till(ctx, n):
